@@ -262,6 +262,33 @@ class ArgSet:
             st.mem = path.mem
             path.payload = exr.load_conc(st, self.objs["ret_out"], 0, irparse.IntTy(128))
 
+    def resetup(self, exr, st):
+        """second and later runs: same symbolic variables, fresh memory objects"""
+        k = self.kernel
+        env = self.env
+        args = []
+        for a in k.args:
+            if a.kind == "val":
+                args.append(env.raw[a.name])
+            elif a.kind == "ref":
+                oid = exr.new_obj(st, 16, "arg:" + a.name)
+                st.mem[oid].cells[0] = (16, env.raw[a.name])
+                self.objs[a.name] = oid
+                args.append(symex.Ptr(oid, IV(64, c=0)))
+            else:
+                esz = (core.bits(a.ctype) + 7) // 8
+                oid = exr.new_obj(st, esz * a.n, "arg:" + a.name)
+                self.objs[a.name] = oid
+                if a.init == "sym":
+                    for i, v in enumerate(env.raw[a.name]):
+                        st.mem[oid].cells[i * esz] = (esz, v)
+                args.append(symex.Ptr(oid, IV(64, c=0)))
+        if k.wide_ret():
+            oid = exr.new_obj(st, 16, "ret_out")
+            self.objs["ret_out"] = oid
+            args.append(symex.Ptr(oid, IV(64, c=0)))
+        return args
+
     def mkvar(self, d, name, ctype):
         cpp_t, nb, sg, kind = core.CT[ctype]
         if kind == "fp":
@@ -700,6 +727,73 @@ def check_kernel(sb, kernel, view, opts, known=None):
     return res
 
 
+def guided_paths(kernel, exr, argset, env, setup_fn, opts, mode, W, res):
+    rng = random.Random((opts["seed"] << 8) ^ 0x5EED)
+    seeds = kernel.guided_seeds(rng)
+    exr.merge = False
+    seen = {}
+    nseed = 0
+    nskip = 0
+    first = True
+    saved_vars = None
+    for inputs in seeds:
+        if exr.deadline is not None and time.time() > exr.deadline:
+            break
+        # fresh symbolic inputs are created on the first run only; later runs reuse them
+        if first:
+            exr.guide = []
+            # a first run is needed to create the variables; bind the guide lazily inside setup
+            def setup_first(e_, st_):
+                a_ = setup_fn(e_, st_)
+                e_.guide = subst_list(argset, inputs)
+                return a_
+            cur_setup = setup_first
+        else:
+            def setup_again(e_, st_, _inputs=inputs):
+                a_ = replay_setup(e_, st_)
+                e_.guide = subst_list(argset, _inputs)
+                return a_
+            cur_setup = setup_again
+        try:
+            if first:
+                # precondition holds for the seed?
+                pass
+            ps = exr.run(kernel.name, None, setup=cur_setup)
+        except (IRUnsupported,) as e:
+            nskip += 1
+            if first:
+                raise
+            continue
+        if first:
+            first = False
+            init_state = (dict(env.raw), dict(env.a), dict(argset.objs))
+
+            def replay_setup(e_, st_):
+                # rebuild the argument objects with the SAME symbolic variables
+                return argset.resetup(e_, st_)
+        if kernel.pre:
+            ex.set_ctx(mode, W if W is not None else 64)
+            pz = kernel.pre(env)
+            if not isinstance(pz, bool):
+                if truth(eval_closed(pz, subst_list(argset, inputs))) is not True:
+                    nskip += 1
+                    continue
+            elif pz is False:
+                nskip += 1
+                continue
+        nseed += 1
+        for p_ in ps:
+            if p_.kind == "INFEASIBLE":
+                continue
+            sig = (p_.kind, getattr(p_, "trace", ()), repr(p_.payload) if p_.kind != "RET" else "")
+            if sig not in seen:
+                seen[sig] = p_
+    exr.guide = None
+    res["guided"] = {"seeds": nseed, "distinct_paths": len(seen), "skipped": nskip}
+    res["notes"].append("trace-guided exploration: %d seed inputs, %d distinct paths" % (nseed, len(seen)))
+    return list(seen.values())
+
+
 def check_kernel_mode(sb, kernel, view, key, mod, consts, mode, opts, res, known):
     tier = opts["tier"]
     W = kernel.W
@@ -720,7 +814,11 @@ def check_kernel_mode(sb, kernel, view, key, mod, consts, mode, opts, res, known
             if pz is not True and pz is not False:
                 e_.base_facts.append(pz)
         return a_
-    paths = exr.run(kernel.name, None, setup=setup_with_pre)
+    if kernel.guided_seeds is None:
+        paths = exr.run(kernel.name, None, setup=setup_with_pre)
+    else:
+        # trace-guided: follow only the paths taken by concrete seed inputs (values stay symbolic on each path)
+        paths = guided_paths(kernel, exr, argset, env, setup_with_pre, opts, mode, W, res)
     paths = [p for p in paths if p.kind != "INFEASIBLE"]
     for p in paths:
         if p.kind == "RET":
